@@ -135,6 +135,9 @@ def forbidden_scan():
 REALS_AXIOMS = ("ClassicalDedekindReals.sig_forall_dec", "ClassicalDedekindReals.sig_not_dec",
                 "FunctionalExtensionality.functional_extensionality_dep", "Classical_Prop.classic")
 
+# primitive machine integers / floats of the standard library (used by the `interval` tactic's computations)
+PRIMITIVE_AXIOMS = ("FloatAxioms.*", "PrimFloat.*", "PrimInt63.*", "Uint63.*")
+
 STD_AXIOMS = {
     # axioms declared by the standard library / installed libraries; allowed when named per theorem
     "ClassicalDedekindReals.sig_forall_dec", "ClassicalDedekindReals.sig_not_dec",
@@ -175,9 +178,9 @@ def coq_audit(pid, theorems, allowed=()):
         if t not in by:
             problems.append("no Print Assumptions output for " + t)
             continue
-        for ax in by[t]:
-            if ax not in allowed:
-                problems.append("theorem %s depends on axiom %s which is not on its allow-list" % (t, ax))
+        bad = [ax for ax in by[t] if not (ax in allowed or any(a.endswith("*") and ax.startswith(a[:-1]) for a in allowed))]
+        if bad:
+            problems.append("theorem %s depends on axioms not on its allow-list: %s" % (t, ", ".join(bad[:8]) + (" ..." if len(bad) > 8 else "")))
     return by, problems
 
 
